@@ -13,6 +13,7 @@
 -/
 import XotModel.Lemmas.LexSliceOrder
 import XotModel.Model.TokenRender
+import XotModel.Lemmas.SharedDefs
 
 namespace XotModel
 
@@ -41,10 +42,7 @@ def Token.wholeSpan : Token → StrSpan
   | .text t => t
   | .cdata _ sp => sp
 
-def Token.isCharData : Token → Bool
-  | .text _ => true
-  | .cdata _ _ => true
-  | _ => false
+-- `Token.isCharData` (text and CDATA tokens) is in `Lemmas/SharedDefs.lean`.
 
 def Token.isTextTok : Token → Bool
   | .text _ => true
